@@ -295,6 +295,10 @@ def sim_task_generator(job, outputFile=None, errorFile=None):
     if lf:
         REC.ev('launch-fail', job.reference, {'n': n, 'how': lf})
         REC.count('fault.launch_fail.%s' % lf)
+        if spec.get('launch_fail_delay'):
+            # a submission that hangs before it fails (scheduler down, timeout)
+            REC.count('fault.launch_fail.slow')
+            simk.sim_sleep(float(spec['launch_fail_delay']))
         if lf == 'oserror':
             raise OSError('simulated launch failure')
         if lf == 'joblaunch':
